@@ -295,4 +295,60 @@ theorem readRule_erase (f2 : Bool) (b : Bytes) (pos off : Nat) (c : Cost) :
   · rw [hbuf]
     rcases short2 hws with h | ⟨a, h⟩ <;> rw [h] <;> rfl
 
+/-! ## the dispatcher -/
+
+def ruleOf (r : Rule) : SfntV.Otl.Ctx.Rule := ⟨[], r.input, [], r.actions⟩
+
+def setsOf (ss : Sets) : List (Option (List SfntV.Otl.Ctx.Rule)) :=
+  ss.map (Option.map (List.map ruleOf))
+
+/-- the value of the dispatcher as the value-level model of C08 presents it -/
+def eraseSub : Outcome (Sub × Cost) → Outcome SfntV.Otl.Ctx.Sub
+  | .ok (.c1 v, _) => .ok (.c1 false v.cov (setsOf v.sets))
+  | .ok (.c2 v, _) => .ok (.c2 false v.cov [v.classes] (setsOf v.sets))
+  | .ok (.c3 v, _) => .ok (.c3 [] v.covs [] v.actions false)
+  | .err e => .err e
+  | .panic s => .panic s
+
+/-- BRIDGE, dispatcher level: `readGsubSubtable` with lookup type 5 as repaired — on every input
+whose format word is not 1 or 2 (format 3, every invalid format word, a missing format word) the
+checked-index model without sites and cost is `SfntV.Otl.Ctx.readSubtable 5` on the bytes from the
+subtable position on.  No side condition on colliding format words any more.  (Formats 1 and 2:
+the top-level bridges `readSeqContext1/2 ↔ Ctx.read1/2` are not proved yet.) -/
+theorem gsub5_erase (b : Bytes) (pos : Nat) (h1 : wordAt b pos ≠ some 1)
+    (h2 : wordAt b pos ≠ some 2) :
+    eraseSub (gsub5 b pos) = SfntV.Otl.Ctx.readSubtable 5 (b.drop pos) := by
+  unfold gsub5 gsub5G SfntV.Otl.Ctx.readSubtable
+  rcases word_cases "gsub.go:36#ReadUint16" b pos with ⟨f, hf, hws⟩ | ⟨hf, hws⟩
+  · obtain ⟨hw, _, _⟩ := readU16_ok hf
+    have hf1 : f ≠ 1 := fun h => h1 (by rw [hw, h])
+    have hf2 : f ≠ 2 := fun h => h2 (by rw [hw, h])
+    rw [hf, hws, ok_bind]
+    dsimp only
+    by_cases hf3 : f = 3
+    · subst hf3
+      have k := readSeqContext3_erase b pos
+      rw [← k, if_neg (by decide), if_neg (by decide), if_neg (by decide), if_pos rfl,
+        if_neg (by decide), if_neg (by decide), if_pos (by decide)]
+      cases readSeqContext3 b (pos + 2) pos with
+      | ok v => obtain ⟨v, c⟩ := v; rfl
+      | err e => rfl
+      | panic s => rfl
+    · have e1 : (f == 1) = false := by simp [hf1]
+      have e2 : (f == 2) = false := by simp [hf2]
+      have e3 : (f == 3) = false := by simp [hf3]
+      simp only [e1, e2, e3, Bool.and_false, Bool.false_eq_true, if_false]
+      rw [if_neg hf1, if_neg hf2, if_neg hf3]
+      split
+      · rfl
+      · simp only [false_and, if_false]
+        rfl
+  · rw [hf, hws]
+    rfl
+
+/-- format 3 in particular -/
+theorem gsub5_erase_fmt3 (b : Bytes) (pos : Nat) (h : wordAt b pos = some 3) :
+    eraseSub (gsub5 b pos) = SfntV.Otl.Ctx.readSubtable 5 (b.drop pos) :=
+  gsub5_erase b pos (by rw [h]; decide) (by rw [h]; decide)
+
 end SfntV.Total.SeqCtx
